@@ -292,7 +292,19 @@ func (h *harness) scenarioCorrupt(pre *gateFS, preDump nodeDump) bool {
 	if !ok {
 		return false
 	}
-	err := install(n, in, mode)
+	var err error
+	if mode == modeDirect {
+		// only the faulty stream, straight into its importer, on the untouched pre-import state
+		one := restoreInput{slot: in.slot, route: in.route, page: in.page}
+		if idx == 0 {
+			one.meta = fr
+		} else {
+			one.msgs = []*faultReader{fr}
+		}
+		err = importStreams(n, one)
+	} else {
+		err = install(n, in, mode)
+	}
 	step := "accepted"
 	if err != nil {
 		step = stepOf(err)
